@@ -780,3 +780,5 @@ pub fn verif_place_grid_items(
         (final_row_counts.negative_implicit, final_row_counts.explicit, final_row_counts.positive_implicit),
     )
 }
+#[cfg(taffy_verif)]
+pub mod verif_c09;
